@@ -72,7 +72,7 @@ def run(case, W):
         if kind == "unit":
             pos += 1 if out[pos:pos + 1] == b"\n" else 2
         else:
-            return Result(violation=("harness-domain", "command-list style line in a run without command lists: %r" % payload))
+            return Result(violation=("broken-unit", "the output is not a sequence of whole units (a unit was abandoned part-way, so the parser went idle inside it): %r in %r" % (payload, out[-120:])))
         pos += len(payload) + len(nl)
         bounds.add(pos)
         if payload in (b"OK", b"ERROR"):
@@ -80,7 +80,7 @@ def run(case, W):
         elif payload.startswith(b"#"):
             ev_ranges.append((start, pos))
         if not payload:
-            return Result(violation=("harness-domain", "empty payload in output %r" % out))
+            return Result(violation=("broken-unit", "empty unit in output %r" % out[-120:]))
     # per step: output length, number of started non-blank lines
     outlen = [0] * n
     started = [0] * n
